@@ -29,8 +29,9 @@ use rustc_hash::FxHashMap;
 type Map = FxHashMap<PGIndexKey, NodeIndex>;
 
 fn map_s(m: &[(PGIndexKey, usize)]) -> S {
+    // entries in the order of the text of their keys (not the library's own Ord on keys, which is code under test)
     let mut v = m.to_vec();
-    v.sort_by(|a, b| a.0.cmp(&b.0));
+    v.sort_by_key(|(k, _)| pgkey_s(k).to_string());
     sexp::list(&v, |(k, n)| sexp::l(vec![pgkey_s(k), sexp::a(n)]))
 }
 
@@ -163,7 +164,7 @@ pub fn eval(rng: &mut Rng, pats: &[(G, usize)], host: &G, heurs: &[Heur], o: &mu
                 if let PGPredicate::IsNotEqual { n_other } = c.predicate() {
                     let args = c.required_bindings();
                     let mut rest: Vec<PGIndexKey> = args[1..].to_vec();
-                    rest.sort();
+                    rest.sort_by_key(|k| pgkey_s(k).to_string());
                     let mut v = vec![sexp::a("ne"), sexp::a(n_other)];
                     let mut all = vec![args[0]];
                     all.extend(rest);
